@@ -11,6 +11,7 @@ import lib
 
 def standard_run(ck, P, replay_cases=None):
     """the common shape of a differential (D) check"""
+    ck.gen_units = tuple(getattr(P, "GEN_UNITS", ()))
     ck.step_facts()
     props_ok, drv_ok = ck.step_lean([P.MODULE])
     if props_ok:
